@@ -111,6 +111,27 @@ def rule_open(m):
             why = None
             if not fname or not any(st == fname[0] for st in subterms(init)):
                 why = 'the stream is not opened on the caller\'s file name'
+            else:
+                # ... and on that name itself (`fileName`, `fileName.c_str()`), not on a name computed from it: a derived
+                # name (another extension, a scratch file renamed afterwards) can coincide for two distinct targets
+                path = init
+                while path[0] in ('ctor', 'cast') and path[2]:
+                    path = strip_cast(path[2][0] if path[0] == 'ctor' else path[2])
+                if path[0] == 'mcall' and path[1].endswith(('::c_str', '::data')):
+                    path = strip_cast(path[2])
+                if path[0] == 'call' and path[1].startswith(IO):
+                    pass        # (an opening helper: examined below)
+                elif path != fname[0]:
+                    why = 'the stream is opened on `%s`, a name computed from the caller\'s file name and not that name itself: ' \
+                          'calls with distinct file names can end up writing the same file, and an observer of the documented ' \
+                          'target sees it appear by another route' % show(path, f.unit)[:80]
+            fsys = [n for n in f.nodes if n['k'] == 'CallExpr' and 'callee' in n and
+                    f.unit.decl(n['callee'])['tname'] in ('rename', 'remove', 'std::rename', 'std::remove', 'tmpnam', 'std::tmpnam',
+                                                         'tmpfile', 'std::tmpfile', 'mkstemp', 'unlink') and
+                    len(n.get('args', [])) in (0, 1, 2) and 'basic_string' not in str(f.unit.decl(n['callee']).get('cptypes', ''))]
+            if fsys and not why:
+                why = '`%s` moves / removes files behind the stream: the routine touches more of the file system than the file it ' \
+                      'is given' % f.expr_text(fsys[0]['i'])[:50]
             if binary and not any(st[0] == 'global' and st[1].endswith('::binary') for st in subterms(init)):
                 why = why or 'the stream of a binary routine is not opened with std::ios::binary'
             verify = [n for n in f.nodes if n['k'] == 'CallExpr' and 'callee' in n and
@@ -163,6 +184,75 @@ def rule_open(m):
 
 
 # ------------------------------------------------------------------------------------------------
+_COMPOSITE = {}
+
+
+def _composite_reader(H):
+    """An io helper `std::ifstream &H(std::ifstream &s, T1 &a, T2 &b, ...)` built from the read primitive: returns the
+    indices of the out parameters (in reading order) when a true result of H implies that every one of them was filled by a
+    successful read.  The argument: failbit is sticky (H never touches the stream except through the primitive), so the
+    stream returned is good only if no read failed; what is left to show is that every return is reached either after a
+    read of each out parameter or on the failed edge of a read."""
+    if id(H) in _COMPOSITE:
+        return _COMPOSITE[id(H)]
+    _COMPOSITE[id(H)] = None
+    if H is None or not H.tname.startswith(IO) or H.tname == READ or len(H.params) < 2 or \
+            'basic_ifstream' not in H.cptypes[0] or not H.cptypes[0].rstrip().endswith('&'):
+        return None
+    from .rules_pair import true_atoms
+    tt = Terms(H)
+    s = ('var', H.params[0])
+    outs = [ix for ix in range(1, len(H.params)) if H.cptypes[ix].rstrip().endswith('&') and not H.cptypes[ix].startswith('const ')]
+    if len(outs) != len(H.params) - 1:
+        return None
+    calls = []
+    for n in H.nodes:
+        if n['k'] == 'CallExpr' and 'callee' in n and H.unit.decl(n['callee'])['tname'] == READ:
+            a = [tt.t(x) for x in n['args']]
+            if a[0] != s or a[1][0] != 'var' or a[1][1] not in H.params:
+                return None
+            calls.append((n['i'], H.params.index(a[1][1])))
+    rets = [n for n in H.nodes if n['k'] == 'ReturnStmt' and H.children(n['i'])]
+    # the stream is used only as the first argument of the primitive or as the value returned
+    for n in H.nodes:
+        if n['k'] == 'DeclRefExpr' and n['d'] == H.params[0]:
+            if any(n['i'] in H.descendants(c) for c, _ in calls):
+                continue
+            if any(H.strip(H.children(r['i'])[0]) == n['i'] for r in rets):
+                continue
+            return None
+    if not rets or any(x['k'] in ('LambdaExpr', 'CXXTryStmt') for x in H.nodes):
+        return None
+    for r in rets:
+        rv = strip_conv_call(tt.t(H.children(r['i'])[0]))
+        in_ret = [c for c, _ in calls if c in H.descendants(r['i'])]
+        if rv != s and not (len(in_ret) == 1 and rv == tt.t(in_ret[0])):
+            return None
+        pos = H.cfg_pos(r['i'])
+        failed_edge = False
+        for (bb, ix) in H.dominating_edges(pos[0]) if pos else []:
+            a = H.branch_atom(bb)
+            if a is None:
+                continue
+            for x in true_atoms(tt.t(a), ix == 0):
+                if x[0] == 'un' and x[1] == '!' and any(strip_conv_call(x[3]) == tt.t(c) for c, _ in calls):
+                    failed_edge = True
+        if failed_edge:
+            continue
+        for ix in outs:
+            if not any(px == ix and (c in in_ret or H.node_dominates(c, r['i'])) for c, px in calls):
+                return None
+
+    def key(c):
+        return -sum(1 for o in calls if o is not c and H.can_reach_forward(c[0], o[0]))
+    order = []
+    for c, px in sorted(calls, key=key):
+        if px not in order:
+            order.append(px)
+    _COMPOSITE[id(H)] = order
+    return order
+
+
 def _read_calls(f, tt, sd):
     """[(call node, out variable decl)] calls that fill a variable from the stream: readBinaryValue(stream, x) and
     the fromBinary callback (std::function returning the stream)"""
@@ -172,6 +262,13 @@ def _read_calls(f, tt, sd):
             a = [tt.t(x) for x in n['args']]
             if a[0] == ('var', sd) and a[1][0] == 'var':
                 out.append((n['i'], a[1][1], 'readBinaryValue'))
+        elif n['k'] == 'CallExpr' and 'callee' in n and f.unit.decl(n['callee'])['tname'].startswith(IO):
+            H = f.unit.function_for_decl(n['callee'])
+            order = _composite_reader(H) if H is not None else None
+            a = [tt.t(x) for x in n['args']]
+            if order and a and a[0] == ('var', sd) and all(px < len(a) and a[px][0] == 'var' for px in order):
+                for px in order:
+                    out.append((n['i'], a[px][1], 'readBinaryValue'))
         elif n['k'] == 'CXXOperatorCallExpr' and 'callee' in n and f.unit.decl(n['callee']).get('op') == '()':
             a = [tt.t(x) for x in n['args']]
             if len(a) == 3 and a[0][0] == 'var' and 'std::function<std::basic_ifstream' in f.unit.decl(a[0][1]).get('ctype', '') \
@@ -890,6 +987,71 @@ def _chain_args(f, tt, nid):
     return out, n
 
 
+def _adjacency_walk(m, f, tt, graphs):
+    """`for (i : graph) for (j : graph.getOutNeighbours(i)) { [guard] write(i, j) }` - an enumeration of the edges that does not go
+    through edges().  Returns None when the function has no such nest, else (first, second, body nodes, why) where `why` is set
+    when the guards do not keep exactly the entries edges() yields: every list entry for directed storage, one of the two
+    mirrored entries (and the self-loop entry) for undirected storage."""
+    from .rules_pair import region_atoms, eval_order, ORDERINGS
+    from .rules_val import graph_like
+    from .model import UNDIRECTED_FAMILY
+    for on in f.nodes:
+        if on['k'] != 'CXXForRangeStmt' or not (tt.t(on['rangeinit']) in graphs or graph_like(f, tt.t(on['rangeinit']))):
+            continue
+        i = ('var', on['loopvar'])
+        for inn in f.nodes:
+            if inn['k'] != 'CXXForRangeStmt' or inn['i'] not in f.descendants(on['body']):
+                continue
+            r = tt.t(inn['rangeinit'])
+            if not (r[0] == 'mcall' and r[1].endswith(('::getOutNeighbours', '::getNeighbours')) and r[2] in graphs and r[3] == (i,)):
+                continue
+            j = ('var', inn['loopvar'])
+            body = set(f.descendants(inn['body']))
+            writes = [x for x in sorted(body) if f.nodes[x]['k'] in ('CallExpr', 'CXXOperatorCallExpr') and 'callee' in f.nodes[x]
+                      and (f.unit.decl(f.nodes[x]['callee'])['tname'] == WRITE or f.unit.decl(f.nodes[x]['callee'])['name'] == 'operator<<')]
+            if not writes:
+                return (i, j, body, 'expected the records to be written inside the neighbour loop')
+            gt = f.unit.decl(graphs and list(graphs)[0][1]).get('ctype', '') if graphs else ''
+            undirected = any(short_u in f.targs or short_u in gt for short_u in ('UndirectedGraph', 'UndirectedMultigraph', 'UndirectedWeightedGraph'))
+            from .rules_struct import path_eval
+            from .rules_pair import Ctx as _PCtx
+            pctx = _PCtx(m, f)
+            why = None
+            kept = {}
+            for (va, vb) in ORDERINGS:
+                for rev in ((1,) if undirected else (0, 1)):
+                    env = {i: va, j: vb}
+                    for n2 in f.nodes:
+                        if n2['i'] in body and n2['k'] == 'CXXMemberCallExpr':
+                            st = tt.t(n2['i'])
+                            if st[0] == 'mcall' and st[1].endswith('::hasEdge') and st[2] in graphs and len(st[3]) >= 2:
+                                if st[3][:2] == (i, j):
+                                    env[st] = 1
+                                elif st[3][:2] == (j, i):
+                                    env[st] = rev
+                    start = f.cfg_pos(inn['loopvarstmt']) if inn.get('loopvarstmt', -1) >= 0 else None
+                    ok = path_eval(pctx, writes[0], env, start_block=start[0]) if start else None
+                    if ok is None:
+                        return (i, j, body, 'expected the guards of the record to be decidable from the order of the two endpoints and '
+                                            'edge existence')
+                    kept[(va, vb, rev)] = ok
+            if undirected:
+                lt, gt_, eq = kept[(0, 1, 1)], kept[(1, 0, 1)], kept[(1, 1, 1)]
+                if not eq:
+                    why = 'the self-loop entry (i == j) is not written'
+                elif lt == gt_:
+                    why = 'for an undirected graph both mirrored entries (i,j) and (j,i) are %s: every edge is written %s' % (
+                        'kept' if lt else 'skipped', 'twice' if lt else 'never')
+            else:
+                missing = [k for k, v in kept.items() if not v]
+                if missing:
+                    va, vb, rev = missing[0]
+                    why = 'for a directed graph the entry (i,j) with %s is skipped%s: that edge is missing from the file' % (
+                        {(0, 1): 'i < j', (1, 1): 'i == j', (1, 0): 'i > j'}[(va, vb)], ' when the reverse edge (j,i) exists' if rev else '')
+            return (i, j, body, why)
+    return None
+
+
 def rule_schema_binary(m):
     res = RuleResult('F-IO.SCHEMA.bin', 'binary writer and loader agree on the record: [u32 source, u32 destination, '
                                         'label] with the default label codec write/readBinaryValue<EdgeLabel>; both '
@@ -1026,12 +1188,18 @@ def rule_schema_binary(m):
                  tt.t(n['rangeinit'])[1].endswith('::edges') and tt.t(n['rangeinit'])[2] in graphs]
         why = None
         seq = []
-        if len(loops) != 1:
+        walk = _adjacency_walk(m, f, tt, graphs) if len(loops) != 1 else None
+        if len(loops) != 1 and walk is None:
             why = 'expected one loop over graph.edges() in the writer (or in the one helper it hands graph and file name to)'
+        elif walk is not None and walk[3]:
+            why = walk[3]
         else:
-            e = ('var', loops[0]['loopvar'])
-            body = set(f.descendants(loops[0]['body']))
-            first, second = ('member', e, 'std::pair::first'), ('member', e, 'std::pair::second')
+            if walk is not None:
+                first, second, body = walk[0], walk[1], walk[2]
+            else:
+                e = ('var', loops[0]['loopvar'])
+                body = set(f.descendants(loops[0]['body']))
+                first, second = ('member', e, 'std::pair::first'), ('member', e, 'std::pair::second')
 
             def label_ok(lab):
                 return lab[0] == 'mcall' and lab[1].endswith('::getEdgeLabel') and lab[2] in graphs and lab[3][:2] == (first, second)
@@ -1116,7 +1284,7 @@ def rule_schema_binary(m):
         tt = Terms(f)
         disp = f.display()
         sd, _ = _stream_var(f)
-        reads = sorted(_read_calls(f, tt, sd))
+        reads = sorted(_read_calls(f, tt, sd), key=lambda r: r[0])
         adds = [n for n in f.nodes if n['k'] == 'CXXMemberCallExpr' and 'callee' in n and f.unit.decl(n['callee'])['name'] == 'addEdge']
         why = None
         want = 2 if _is_nolabel(f) else 3
